@@ -1,4 +1,5 @@
 import VelaVerif.Spec.NpuSem
+import VelaVerif.Spec.Tiling
 /-! Helper lemmas for `Props/C01.lean` (sums over ranges, rounding division by a power of two). -/
 namespace VelaVerif.Lemmas.Sem
 open VelaVerif.TfliteRef VelaVerif.Requant
@@ -48,5 +49,29 @@ theorem rdivpot_cases (x : Int) (e : Nat) :
       split <;> split <;> (try split) <;> omega
     · simp only [hx, if_false]
       split <;> split <;> (try split) <;> omega
+
+open VelaVerif.Tiling in
+theorem execStripes_row {α β : Type} (op : (Nat → α) → Nat → β) (lo hi : Nat → Nat) (hloc : IsLocal op lo hi)
+    (inp : Nat → α) (l : List (Stripe α)) (hsee : ∀ s ∈ l, s.sees inp lo hi) (y : Nat) :
+    ∀ out : Nat → β, (out y = op inp y ∨ ∃ s ∈ l, s.covers y) → execStripes op l out y = op inp y := by
+  induction l with
+  | nil =>
+    intro out h
+    rcases h with h | ⟨s, hs, _⟩
+    · exact h
+    · cases hs
+  | cons s rest ih =>
+    intro out h
+    simp only [execStripes]
+    apply ih (fun t ht => hsee t (List.mem_cons_of_mem s ht))
+    by_cases hc : s.first ≤ y ∧ y < s.last
+    · left
+      simp only [stepStripe, hc, and_self, if_true]
+      exact hloc y s.mem inp (fun r h1 h2 => hsee s (List.mem_cons_self) y hc r h1 h2)
+    · rcases h with h | ⟨t, ht, hcov⟩
+      · left; simp only [stepStripe, hc, if_false]; exact h
+      · rcases List.mem_cons.mp ht with rfl | ht'
+        · exact absurd hcov hc
+        · right; exact ⟨t, ht', hcov⟩
 
 end VelaVerif.Lemmas.Sem
